@@ -131,6 +131,19 @@ func window(kind string, t0 uint64) (uint64, uint64) {
 		return t0 - 1000, t0 + 3
 	case "edge": // valid from exactly... well before, until far
 		return 1, 1 << 62
+	// bounds next to the 31-, 32- and 63-bit limits (a narrowing or signed conversion turns them over)
+	case "vb31": // valid: ends just after 2^31
+		return t0 - 1000, 1<<31 + 5
+	case "vb32": // valid: ends just after 2^32
+		return t0 - 1000, 1<<32 + 5
+	case "va32": // premature: starts after 2^32 (low 32 bits are small)
+		return 1<<32 + 7, 1<<33 + 7
+	case "vb63": // valid: ends at exactly MaxInt64 / just above it
+		return t0 - 1000, 1<<63 - 1
+	case "vb63p":
+		return t0 - 1000, 1 << 63
+	case "va63": // premature for ever: starts at MaxInt64
+		return 1<<63 - 1, maxU64
 	}
 	panic("window " + kind)
 }
@@ -151,6 +164,21 @@ func kidText(kind, id string) string {
 		base.IsHeadless, base.IsHWKey = true, true
 	case "deftouch": // decodes, but no certificate type applies (DefaultTouch)
 		base.TouchPolicy = keyid.DefaultTouch
+	// near the consistency rules: a headless / nonce KeyID must have the never-touch policy
+	case "headless": // consistent
+		base.IsHeadless = true
+	case "headless0": // inconsistent: default touch policy
+		base.IsHeadless, base.TouchPolicy = true, keyid.DefaultTouch
+	case "headlessneg":
+		base.IsHeadless, base.TouchPolicy = true, -1
+	case "nonce0":
+		base.IsNonce, base.TouchPolicy = true, keyid.DefaultTouch
+	case "headless17": // equals never-touch modulo 16
+		base.IsHeadless, base.TouchPolicy = true, 17
+	case "touch4": // decodes; out-of-range touch policy
+		base.TouchPolicy = 4
+	case "touch258":
+		base.TouchPolicy = 258
 	case "missing":
 		b, _ := json.Marshal(base)
 		return strings.Replace(string(b), `"isNonce":false,`, "", 1)
@@ -276,11 +304,26 @@ func (u *under) serve(c net.Conn) {
 		case "oversize":
 			c.Write([]byte{0x7f, 0xff, 0xff, 0xff, 1, 2, 3})
 			return
+		case "oversize2": // top bit set: negative as a 32-bit signed number
+			c.Write([]byte{0x80, 0, 0, 0, 1, 2, 3})
+			return
+		case "oversize3":
+			c.Write([]byte{0xff, 0xff, 0xff, 0xff, 1, 2, 3})
+			return
+		case "oversize4": // one byte above the 16 MiB bound
+			c.Write([]byte{0x01, 0, 0, 0x01, 1, 2, 3})
+			return
 		case "weird":
 			c.Write([]byte{0, 0, 0, 1, 6})
 			continue
 		case "close":
 			return
+		}
+		if len(req) > 0 && req[0] == 200 { // raw request of the test protocol: echoed behind 0xAA
+			var out [4]byte
+			binary.BigEndian.PutUint32(out[:], uint32(len(req)+1))
+			c.Write(append(append(out[:], 0xAA), req...))
+			continue
 		}
 		var buf []byte
 		buf = append(buf, hdr[:]...)
@@ -290,7 +333,7 @@ func (u *under) serve(c net.Conn) {
 	}
 }
 
-var kindCode = map[string][]byte{"list": {11}, "add": {17, 25}, "remove": {18}, "removeall": {19}, "sign": {13}, "lock": {22}, "unlock": {23}}
+var kindCode = map[string][]byte{"list": {11}, "add": {17, 25}, "remove": {18}, "removeall": {19}, "sign": {13}, "lock": {22}, "unlock": {23}, "forward": {200}}
 
 func (u *under) setFaults(spec string) {
 	u.mu.Lock()
@@ -508,7 +551,9 @@ func execHist(args []string) ([]string, []string) {
 				label = "00"
 			}
 		}
-		orc = append(orc, fmt.Sprintf("%s=%s,%s,%d,%d", n, ys, label, c.cert.ValidAfter, c.cert.ValidBefore))
+		// the KeyID text travels as a token tree: the statement's own KeyID decoder (C05 model) decides
+		// whether it is a YSSHCA KeyID, not the implementation's
+		orc = append(orc, fmt.Sprintf("%s=%s,%s,%d,%d,%s", n, ys, label, c.cert.ValidAfter, c.cert.ValidBefore, strings.NewReplacer(";", "\u0001", ",", "\u0002", "=", "\u0003").Replace(hx.Tok([]byte(c.cert.KeyId)))))
 	}
 	newArgs := []string{noup, cf, initS, opsS, strconv.FormatUint(w.t0, 10), strings.Join(times, ","), strings.Join(orc, ";")}
 	if len(orc) == 0 {
@@ -575,6 +620,12 @@ func (w *world) doOp(shim shimagent.ShimAgent, u *under, op, arg string) string 
 		return okErr(shim.Lock(hx.UnHex(arg)))
 	case "unlock":
 		return okErr(shim.Unlock(hx.UnHex(arg)))
+	case "forward":
+		resp, err := shim.Forward(hx.UnHex(arg))
+		if err != nil {
+			return "err"
+		}
+		return "F:" + hx.Hex(resp)
 	case "uadd":
 		return okErr(u.ring.Add(w.added(arg)))
 	case "uremove":
